@@ -252,7 +252,17 @@ func (e *Engine) verifyFunc(fc *FuncContract) (res *FuncResult) {
 	{
 		f := &frame{bound: st.alloc, startSeq: e.allocSeq, all: fc.modAll}
 		for _, m := range fc.modifies {
-			v := e.evalClauseValue(st, m)
+			mt := e.evalModTarget(st, m)
+			if mt.place != nil {
+				if _, isArr := under(mt.place.typ).(*types.Array); isArr {
+					f.blocks = append(f.blocks, mt.place.addr)
+				} else {
+					f.cells = append(f.cells, cellRange{mt.place.addr, Add(mt.place.addr, I(int64(e.cells(mt.place.typ))))})
+					e.frameArrayBlocks(f, mt.place.addr, mt.place.typ)
+				}
+				continue
+			}
+			v := mt.val
 			t := m.info.TypeOf(m.expr)
 			switch x := v.(type) {
 			case RefV:
@@ -285,6 +295,10 @@ func (e *Engine) verifyFunc(fc *FuncContract) (res *FuncResult) {
 	cx := &Ctx{results: results, fnContract: fc, loopOrd: map[ast.Stmt]int{}, closureOrd: map[*ast.FuncLit]int{}}
 	for i, l := range loopsOf(body) {
 		cx.loopOrd[l] = i + 1
+	}
+	cx.ifOrd = map[*ast.IfStmt]int{}
+	for i, s := range ifsOf(body) {
+		cx.ifOrd[s] = i + 1
 	}
 	if !fc.nopanic {
 		// panic-freedom not claimed for this function: obligations of safety kinds are dropped afterwards
@@ -354,6 +368,11 @@ func (e *Engine) verifyFunc(fc *FuncContract) (res *FuncResult) {
 	for _, c := range fc.ensures {
 		if !c.assume {
 			check(c)
+		}
+	}
+	for _, gs := range fc.guards {
+		for _, g := range gs {
+			check(g.spec)
 		}
 	}
 	for ord, lc := range fc.loops {
